@@ -480,7 +480,7 @@ pub fn mutate(rng: &mut Rng, prog: &str) -> String {
             }
             _ => {
                 // deep nesting of one bracket kind
-                let k = rng.urange(2, 400);
+                let k = if rng.chance(1, 10) { rng.urange(400, 20000) } else { rng.urange(2, 400) };
                 let (o, c) = *rng.pick(&[('[', ']'), ('(', ')'), ('{', '}')]);
                 let mut v: Vec<char> = std::iter::repeat(o).take(k).collect();
                 v.extend(chars.iter().copied());
@@ -535,7 +535,7 @@ pub fn gen_input(rng: &mut Rng) -> String {
     }
     if rng.chance(1, 60) {
         // very deep input
-        let d = *rng.pick(&[100usize, 250, 257, 300, 400]);
+        let d = *rng.pick(&[100usize, 250, 257, 300, 400, 400, 1000, 5000, 20000]);
         let mut s = String::new();
         let obj = rng.chance(1, 2);
         for _ in 0..d {
